@@ -125,6 +125,7 @@ GenGoDepth == DoGo(GoRec(RandomElement(IF Profile = "determinism" THEN 1..4 ELSE
                                       ELSE IF Profile = "heavy" THEN (IF n <= 3 THEN {8} ELSE {7})
                                       ELSE IF Profile = "huge" THEN {17} ELSE 0..3),
                         -1, -1, -1, -1, -1, NoOrder))
+GenGoDepth2 == DoGo(GoRec(RandomElement({2, 3}), -1, -1, -1, -1, -1, NoOrder))
 GenGoMovetime == DoGo(GoRec(-1, RandomElement({0, 1, 5, 50}), -1, -1, -1, -1, NoOrder))
 \* ("whatever the depth limit": depth 0, and depths at and beyond the engine's internal limits - only together with a move time)
 GenGoDepthMovetime == DoGo(GoRec(RandomElement(0..6 \cup {63, 64, 65, 100, 255, 256, 1000}), RandomElement({0, 1, 5, 50}), -1, -1, -1, -1, NoOrder))
@@ -189,6 +190,14 @@ OldWith(c1, c2, k) == IF c1 = <<>> \/ c2 = <<>> THEN GenPositionExtend
                       ELSE SetGame([game EXCEPT !.ms = game.ms \o c1 \o c1 \o RepSeq(c2, k)])
 GenPositionOld == OldWith(CycleFrom(board), CycleFrom(board), RandomElement({26, 30}))
 
+\* a FINISHED game: a seed position from which one move ends the game (mate or stalemate), with that move played.  PickFor then has it
+\* searched (the answer is 0000), taken back one move, and searched again two or three plies deep: whatever the first search left behind
+\* for the final position (a table entry without a move, a cached answer) lies on the principal line of the second
+Enders(q) == {m \in Legal(q) : Legal(Apply(q, m)) = {}}
+FinishedWith(q, m) == SetGame([sp |-> FALSE, start |-> q, hm |-> 0, fm |-> 1, ms |-> <<m>>])
+FinishedFrom(q) == FinishedWith(q, RandomElement(Enders(q)))
+GenPositionFinished == LET S == {q \in SeedPos : Enders(q) # {}} IN IF S = {} THEN GenPositionExtend ELSE FinishedFrom(RandomElement(S))
+
 \* A, B, A: the game of the position command before the current one is sent again, unchanged or extended
 \* (nothing of B may survive, and nothing may be "continued" from the first A)
 FinalOf(g) == LET h == GameFrom(g.start, g.ms) IN h[Len(h)]
@@ -212,8 +221,9 @@ GenEof == Eof /\ Emit([kind |-> "eof", text |-> ""]) /\ Step /\ UNCHANGED <<game
 \* only; generators that need something special fall back to a plain extension when it is unavailable.
 Menu ==
   CASE Profile = "handshake" -> <<"uci", "isready", "isready", "newgame", "unknown", "unknown", "startpos", "extend", "godepth">>
+    \* ("back": the game one ply shorter - after a search of a finished game, the position before its last move)
     [] Profile = "go" -> <<"fen", "fen", "startpos", "extend", "extend", "newgame", "godepth", "gomovetime", "godm", "goclock",
-                           "goclock", "isready", "twin", "twin", "again", "againx", "godepth">>
+                           "goclock", "isready", "twin", "twin", "again", "againx", "godepth", "back", "godepth", "finished">>
     [] Profile = "position" -> <<"fen", "fen", "startpos", "extend", "extend", "extend", "shuffle", "newgame", "godepth",
                                  "again", "again", "againx", "twin">>
     [] Profile = "determinism" -> <<"fen", "startpos", "extend", "extend", "godepth", "godepth", "godepth", "twin", "again",
@@ -234,13 +244,19 @@ Do(w) == CASE w = "uci" -> GenUci [] w = "isready" -> GenIsReady [] w = "newgame
            [] w = "startpos" -> GenPositionStartpos [] w = "fen" -> GenPositionFen [] w = "extend" -> GenPositionExtend
            [] w = "shuffle" -> GenPositionShuffle [] w = "cycle" -> GenPositionCycle [] w = "back" -> GenPositionBack
            [] w = "rcycle" -> GenPositionRCycle [] w = "epcycle" -> GenPositionEpCycle [] w = "old" -> GenPositionOld
+           [] w = "finished" -> GenPositionFinished
            [] w = "again" -> GenPositionAgain [] w = "againx" -> GenPositionAgainExt [] w = "twin" -> GenPositionTwin
-           [] w = "godepth" -> GenGoDepth [] w = "gomovetime" -> GenGoMovetime [] w = "godm" -> GenGoDepthMovetime
+           [] w = "godepth" -> GenGoDepth [] w = "godepth2" -> GenGoDepth2 [] w = "gomovetime" -> GenGoMovetime [] w = "godm" -> GenGoDepthMovetime
            [] w = "goclock" -> GenGoClock [] w = "quit" -> GenQuit [] w = "eof" -> GenEof
 \* (after a very long game - "old" - the next position command starts a short one again: validating a 130-ply history costs
 \*  TLC as much as a whole ordinary script, one per script is enough)
-PickFor(k, g) == LET m == IF k >= MaxCmds THEN <<"quit", "eof">>
+PickFor(k, g, lk) == LET m == IF k >= MaxCmds THEN <<"quit", "eof">>
                           ELSE IF Profile = "huge" THEN (IF g.sp THEN <<"fen">> ELSE <<"godepth">>)
+                          \* a finished game (mate / stalemate on the board) is searched, then taken back one move and searched again
+                          ELSE IF Profile = "go" /\ g.ms # <<>> /\ Legal(FinalOf(g)) = {} THEN (IF lk = "go" THEN <<"back">> ELSE <<"godepth">>)
+                          \* ... and the position from which one move ends the game is searched two or three plies deep right after it was set
+                          ELSE IF Profile = "go" /\ lk = "position" /\ (\E m \in Legal(FinalOf(g)) : Legal(Apply(FinalOf(g), m)) = {})
+                               THEN <<"godepth2">>
                           ELSE IF Len(g.ms) > 60 THEN <<"startpos", "fen", "newgame", "twin", "isready">>
                           ELSE IF k >= (2 * MaxCmds) \div 3 THEN Menu \o <<"quit", "eof">> ELSE Menu
                  IN m[RandomElement(1..Len(m))]
@@ -251,6 +267,6 @@ GNext == /\ PrintLast
          /\ alive
          /\ IF nextw = "none" THEN GenIsReady      \* (first step: the kind of command 1 was not drawn yet)
             ELSE Do(nextw)
-         /\ nextw' = PickFor(n + 1, game')
+         /\ nextw' = PickFor(n + 1, game', last'.kind)
 GSpec == GInit /\ [][GNext]_gvars
 =============================================================================
